@@ -263,8 +263,22 @@ def gen(rng, idx, tier):
             if nested_chain_in_sparse(rng, ds):
                 opts["_composite_in_sparse"] = True
         support = sparse_layer_in_support_ufo(rng, ds)
+    if (ds.get("meta") or {}).get("sparse") and rng.random() < 0.3 and not any(
+            g["name"] == ".notdef" for g in ds["ufos"][0]["glyphs"]):
+        # a '.notdef' WITHOUT contours of its own (empty, or a composite) in every full master;
+        # the sparse layer has none
+        simple = [g["name"] for g in ds["ufos"][0]["glyphs"] if g["contours"] and not g["components"]]
+        kind = rng.choice(["empty", "composite"]) if simple else "empty"
+        for k, u in enumerate(ds["ufos"]):
+            if not u["glyphs"]:
+                continue
+            nd = {"name": ".notdef", "width": 500 + k, "unicodes": [], "contours": [], "anchors": [],
+                  "components": ([{"base": simple[0], "t": [1, 0, 0, 1, 10 + k, 0]}]
+                                 if kind == "composite" else [])}
+            u["glyphs"].insert(0, nd)
+        opts["_notdef_without_contours"] = kind
     skip = []
-    names = [g["name"] for g in ds["ufos"][0]["glyphs"]]
+    names = [g["name"] for g in ds["ufos"][0]["glyphs"] if g["name"] != ".notdef"]
     if rng.random() < 0.25:
         used = [c["base"] for g in ds["ufos"][0]["glyphs"] for c in g["components"]]
         pool = used or names
@@ -374,6 +388,8 @@ def run(case):
         bump("flatten_runs")
         if case["opts"].get("_nested_in_sparse"):
             bump("flatten_nested_composite_in_sparse_master")
+    if case["opts"].get("_notdef_without_contours"):
+        bump("default_notdef_without_contours_" + case["opts"]["_notdef_without_contours"])
     if case["opts"].get("optimizeCFF"):
         bump("otf_runs_with_optimizeCFF")
         if case["opts"].get("_collinear"):
